@@ -534,7 +534,11 @@ type c09Case struct {
 
 func c09Run(t *tr.Writer, id int, c c09Case) {
 	Watch(id, tr.Rec{"kind": c.Kind, "mode": c.Mode}, c)
-	t.Reset(id, tr.Rec{"kind": c.Kind, "mode": c.Mode, "mustfail": false, "input": c})
+	t.Reset(id, tr.Rec{"kind": c.Kind, "mode": c.Mode, "mustfail": false, "healthy": c.Kind != "udp", "input": c})
+	if strings.HasPrefix(c.Mode, "rcall") {
+		c09Reverse(t, id, c)
+		return
+	}
 	e := newMuxEnv(c.Kind, t)
 	defer e.close()
 	rng := tr.NewRng(c.Seed)
@@ -664,9 +668,28 @@ func runC09(a Args) tr.Summary {
 			}
 		}
 	}
+	for _, kind := range []string{"tcp", "mock"} {
+		for _, mode := range []string{"rcall", "rcall-idle", "rcall-idlestop", "rcall-race", "rcall-stale", "rcall-wake"} {
+			id++
+			c := c09Case{kind, mode, 8, calls * 3, a.Seed*1000 + int64(id)}
+			if mode == "rcall-idle" {
+				c.Calls = calls // every lost call costs its time-out
+			} else if mode != "rcall" {
+				c.Callers, c.Calls = 1, calls
+			}
+			if kind == "mock" && mockWedged {
+				id--
+				continue
+			}
+			c09Run(t, id, c)
+			if kind == "tcp" {
+				sum.Samples = append(sum.Samples, c)
+			}
+		}
+	}
 	sum.Cases = id
 	sum.Events = t.Lines
 	sum.Nontrivial = id
-	sum.Extra = tr.Rec{"callers": callers, "rounds": calls}
+	sum.Extra = tr.Rec{"callers": callers, "rounds": calls, "reverse_forced_steps": revForced}
 	return sum
 }
